@@ -617,6 +617,12 @@ C20_SPECIAL = [
     ("copy_clone_generic", "Copy, Clone", "pub enum X<T> { A(::core::marker::PhantomData<T>), B(*const T), C(fn(T) -> T) }"),
     ("impl_ops_generic_self", "Add, AddAssign", "impl<T: ::core::clone::Clone> ::core::ops::Add<&G<T>> for &G<T> where G<T>: ::core::clone::Clone { type Output = G<T>; fn add(self, _r: &G<T>) -> G<T> { self.clone() } }\n#[derive(Clone)] pub struct G<T>(pub T);"),
     ("impl_ops_where_self", "Sub", "impl ::core::ops::Sub<Y> for Y where Self: ::core::clone::Clone { type Output = Self; fn sub(self, _r: Y) -> Self { self } }\n#[derive(Clone)] pub struct Y(pub u8);"),
+    # literals of other kinds as default values; const parameters in EXPRESSION position of a field type (array length, braced const argument)
+    ("default_bytes_slice", "Default", "pub struct X { #[default(b\"ab\")] pub a: &'static [u8], #[default(br\"c\")] pub b: &'static [u8], #[default(*b\"xy\")] pub c: [u8; 2], #[default(1.5e1)] pub d: f64, #[default(7u8)] pub e: u8, #[default('x')] pub f: char }"),
+    ("const_in_expr_position", "Default, Clone, Debug, PartialEq", "pub struct X<const N: usize> { pub a: [u8; N], pub b: Wn<{ N }>, pub c: Wn<N> }\n"
+     "#[derive(Clone, Debug, PartialEq)] pub struct Wn<const K: usize>;\nimpl ::core::default::Default for Wn<0> { fn default() -> Self { Wn } }\nimpl ::core::default::Default for Wn<1> { fn default() -> Self { Wn } }"),
+    ("const_in_expr_position_enum", "Default, Clone, PartialEq", "pub enum X<const N: usize> { A, #[default] B([u16; N], Wn<{ N }>) }\n"
+     "#[derive(Clone, PartialEq)] pub struct Wn<const K: usize>;\nimpl ::core::default::Default for Wn<2> { fn default() -> Self { Wn } }"),
     # (op= is only requested where Output is the self type as derive_ex sees it: a reference with a named lifetime is an opaque by-value operand)
     # user impls whose reference operands carry a NAMED lifetime that other parts of the impl depend on (Output borrows it, the other operand
     # carries it, the referent is unsized): whatever forms derive_ex decides to generate must type-check
